@@ -9,7 +9,7 @@
 (* entry; a decoder that walks the same order consumes exactly the bits    *)
 (* written.  Books are referenced by their 0-based index in the set-up.    *)
 (***************************************************************************)
-EXTENDS Setup, Codebook, Floor1
+EXTENDS Setup, Codebook, Floor1, DbTable
 
 \* (a set-up may carry the codeword tables of its books in a field cw, computed once by the generator)
 Word(s, book, entry) == LET b == s.books[book + 1] cw == IF "cw" \in DOMAIN s THEN s.cw[book + 1] ELSE Codewords(b.lens) IN WordBits(cw[entry].w, b.lens[entry])
@@ -127,6 +127,23 @@ Decouple(vals, cp, i) ==
            nv == [j \in 1..Len(vals) |-> [x \in 1..Len(vals[j]) |-> IF j = M THEN CoupleBin(vals[M][x], vals[A][x])[1] ELSE IF j = A THEN CoupleBin(vals[M][x], vals[A][x])[2] ELSE vals[j][x]]]
        IN Decouple(nv, cp, i - 1)
 
+(* ---- floor curve times residue (spec 7.2.4 step 2 / 4.3.6): the single-precision product of a table entry m * 2^e and a small integer r ---- *)
+\* number of bits of p (p >= 1)
+RECURSIVE BitLen(_)
+BitLen(p) == IF p = 0 THEN 0 ELSE 1 + BitLen(p \div 2)
+\* IEEE-754 single precision, round to nearest even: [sign, biased exponent, 23-bit mantissa]; |r| < 128 so that r * m fits 31 bits
+FMul(me, r) ==
+  IF r = 0 THEN <<0, 0, 0>>
+  ELSE LET a == IF r < 0 THEN -r ELSE r
+           p == a * me[1]
+           k == BitLen(p) - 24                                         \* p >= 2^23, so k >= 0
+           q0 == p \div Pow2(k)  rem == p % Pow2(k)
+           up == k > 0 /\ (2 * rem > Pow2(k) \/ (2 * rem = Pow2(k) /\ q0 % 2 = 1))
+           q1 == IF up THEN q0 + 1 ELSE q0
+           q == IF q1 = 16777216 THEN 8388608 ELSE q1
+           ex == me[2] + k + (IF q1 = 16777216 THEN 1 ELSE 0)
+       IN << IF r < 0 THEN 1 ELSE 0, ex + 150, q - 8388608 >>
+
 (* ---- a whole packet: per-channel floor flags, any number of submaps, floor 0 or 1 (spec 4.3.2 - 4.3.5) ---- *)
 SubmapOf(m, c) == IF m.submaps > 1 THEN m.mux[c] ELSE 0                               \* channel c (1-based) -> submap (0-based)
 BundleOf(s, m, sm) == SelectSeq([c \in 1..s.ch |-> c], LAMBDA c : SubmapOf(m, c) = sm)   \* the channels of a submap in order
@@ -153,5 +170,15 @@ PacketResidue(s, mode, salt, fl) ==
       dec == Decoded(s, m, fl)
       per == [sm1 \in 1..m.submaps |-> LET B == BundleOf(s, m, sm1 - 1) IN ResidueVals(s, s.residues[m.sres[sm1] + 1], half, Len(B), [b \in 1..Len(B) |-> dec[B[b]]], salt + 100 * (sm1 - 1))]
   IN [c \in 1..s.ch |-> LET sm1 == SubmapOf(m, c) + 1  B == BundleOf(s, m, sm1 - 1)  b == CHOOSE k \in 1..Len(B) : B[k] = c IN per[sm1][b]]
+\* the spectrum after the floor curve has been applied: per channel a sequence of float fields; <<>> for a channel whose floor is of type 0 (its curve is
+\* float arithmetic and not modelled); a channel whose floor is unused is silent
+PacketProduct(s, mode, salt, fl) ==
+  LET m == s.maps[s.modes[mode + 1].map + 1]  half == HalfBlock(s, mode)
+      cv == Decouple(PacketResidue(s, mode, salt, fl), m.coupling, Len(m.coupling))
+  IN [c \in 1..s.ch |->
+        LET f == s.floors[m.sfloor[SubmapOf(m, c) + 1] + 1] IN
+        IF fl[c] = 0 THEN [x \in 1..half |-> <<0, 0, 0>>]
+        ELSE IF f.type # 1 THEN <<>>
+        ELSE LET yc == Floor1Curve(s, f, salt + c, half) IN [x \in 1..half |-> FMul(DbTable[yc[x] + 1], cv[c][x])]]
 PacketSpectrum(s, mode, salt, fl) == LET m == s.maps[s.modes[mode + 1].map + 1] IN Decouple(PacketResidue(s, mode, salt, fl), m.coupling, Len(m.coupling))
 =============================================================================
